@@ -199,8 +199,7 @@ pub fn read_raw_bytes<R: Read + Seek>(
 
     // Read raw bytes
     let total_bytes = array.count as usize * element_size;
-    let mut data = vec![0u8; total_bytes];
-    reader.read_exact(&mut data).map_err(M2Error::Io)?;
+    let data = reader.read_bytes(total_bytes).map_err(M2Error::Io)?;
 
     Ok(data)
 }
@@ -320,8 +319,7 @@ impl FixedString {
 
     /// Parse a fixed-width string from a reader
     pub fn parse<R: Read + Seek>(reader: &mut R, len: usize) -> Result<Self> {
-        let mut data = vec![0u8; len];
-        reader.read_exact(&mut data)?;
+        let mut data = reader.read_bytes(len)?;
 
         // Find null terminator
         let null_pos = data.iter().position(|&b| b == 0).unwrap_or(len);
